@@ -294,7 +294,8 @@ class Ctx:
                     break
                 m = re.search(r'"REJECTED_AT_LINE", (\d+)', out)
                 if not m:
-                    sys.stdout.write(out[-5000:])
+                    k = out.find("Error:")
+                    sys.stdout.write(out[max(0, k - 200):k + 3000] if k >= 0 else out[-5000:])
                     raise Infra("trace validation %s failed without a verdict" % module)
                 ln_no = int(m.group(1))
                 hit = None
